@@ -287,6 +287,47 @@ def decode_order(F, S):
         out.append(ok("R-ORDER", inst, dc.loc(wr[0]["id"]), dc.qn, req, "UpdateCodeCount dominates all %d output sites" % len(wr)))
     else:
         out.append(bad("R-ORDER", inst, dc.loc(dc.body), dc.qn, req, "an output site is not dominated by the update"))
+    # the end-of-stream answer the function returns is read after everything the code consumes from the bit stream
+    from ..through import closure
+    consumers = ("GetRepeatOffset", "GetNextCode", "ReadNextBit", "ReadNext8Bits", "GetOffsetModifiers")
+    eos_t = F.method_value(BS + "::EndOfStream", ("mem", ("this",), "m_BitStreamReader"))
+    # functions that (transitively) take bits from the reader
+    bit_consumers = {f.key for f in F.functions.values() if f.cls == BS and f.name in ("ReadNextBit", "ReadNext8Bits")}
+    changed = True
+    while changed:
+        changed = False
+        for f in F.functions.values():
+            if f.key in bit_consumers or not f.cfg or f.cls not in (HL, BS):
+                continue
+            if any(c.key in bit_consumers for nd in f.nodes if nd["k"] in CALLS for c in F.callees(nd)):
+                bit_consumers.add(f.key)
+                changed = True
+    bit_consumers.discard(dc.key)
+    inst = HL + "::DecompressCode#end-of-stream-after-code"
+    req = "the end-of-stream flag returned for a code is read after all bits of that code (symbol, offset) were consumed"
+    probs = []
+    rets = returns(dc)
+    for r in rets:
+        v = dc.term(r["value"])
+        read_at = r["id"]
+        if v[0] == "var":
+            defs_at = [nd["id"] for nd in dc.nodes if nd["k"] == "DeclStmt" and any(("var", d.get("n"), d.get("d")) == v and "init" in d and dc.term(d["init"]) == eos_t for d in nd.get("decls", []))]
+            defs_at += [nd["id"] for nd in dc.nodes if nd["k"] == "BinaryOperator" and nd.get("op") == "=" and dc.term(dc.kids(nd["id"])[0]) == v and dc.term(dc.kids(nd["id"])[1]) == eos_t]
+            if len(defs_at) != 1:
+                raise AnalysisBroken("DecompressCode: the returned flag is not the bit reader's end-of-stream test")
+            read_at = defs_at[0]
+        elif v != eos_t:
+            raise AnalysisBroken("DecompressCode: the returned flag is not the bit reader's end-of-stream test")
+        later = [nd for nd in dc.nodes if nd["k"] in CALLS and nd["id"] > read_at and
+                 (nd.get("fname") in consumers or any(c.key in bit_consumers for c in F.callees(nd)))]
+        if later:
+            probs.append("the flag is read at %s, before %s at %s consumes further bits" % (dc.loc(read_at), later[0].get("fname"), dc.loc(later[0]["id"])))
+    if not rets:
+        raise AnalysisBroken("DecompressCode: no return")
+    if probs:
+        out.append(bad("R-ORDER", inst, dc.loc(rets[0]["id"]), dc.qn, req, "; ".join(probs)))
+    else:
+        out.append(ok("R-ORDER", inst, dc.loc(rets[0]["id"]), dc.qn, req, "read at the return, after the last consuming call"))
     return out
 
 
